@@ -5,7 +5,7 @@ a dash-free keyword typed in full after the key does not resolve to itself; a us
 is not reachable / does not override; a scope lets the wrong kind of snippet through."""
 import re
 
-from .. import core, probes
+from .. import core, hostile, probes
 
 ID = 'C06'
 RULE = ('whole-table check: every key of the built-in stylesheet table (raw table read by the harness) x 6 syntaxes x scopes none/@@global/@@section/@@property/'
@@ -101,7 +101,7 @@ class Mon:
     def __init__(self, ctx):
         import emmet
         self.ctx = ctx
-        self.expand = emmet.expand
+        self.expand = hostile.wrap(emmet.expand, ctx)
         self.caches = {}
         self.n = 0
 
